@@ -272,6 +272,10 @@ fn apply_edits(m: &mut Module, ids: &InputIds, input: &[u8], rng: &mut Rng, log:
                 }).map(|f| f.id());
                 let p = m.locals.add(ValType::I32);
                 let l = m.locals.add(ValType::I64);
+                // block types of every shape: none, one result, parameters without results, parameters and results
+                let t_param = walrus::ir::InstrSeqType::new(&mut m.types, &[ValType::I32], &[]);
+                let t_both = walrus::ir::InstrSeqType::new(&mut m.types, &[ValType::I32], &[ValType::I32]);
+                let t_two = walrus::ir::InstrSeqType::new(&mut m.types, &[], &[ValType::I32, ValType::I32]);
                 let mut fb = FunctionBuilder::new(&mut m.types, &[ValType::I32], &[ValType::I64]);
                 {
                     let mut b = fb.func_body();
@@ -283,6 +287,24 @@ fn apply_edits(m: &mut Module, ids: &InputIds, input: &[u8], rng: &mut Rng, log:
                         let me = b.id();
                         b.i32_const(1).br_if(me);
                     });
+                    b.i32_const(3).block(t_param, |b| {
+                        b.drop();
+                    });
+                    b.i32_const(4).block(t_both, |b| {
+                        b.i32_const(1).binop(walrus::ir::BinaryOp::I32Add);
+                    });
+                    b.drop();
+                    b.block(t_two, |b| {
+                        b.i32_const(1).i32_const(2);
+                    });
+                    b.drop().drop();
+                    // a loop with a result and a conditional back edge, put in place with loop_at
+                    let at = b.instrs().len();
+                    b.loop_at(at, ValType::I32, |lp| {
+                        let me = lp.id();
+                        lp.i32_const(0).br_if(me).i32_const(7);
+                    });
+                    b.drop();
                     b.local_get(l);
                 }
                 let f = fb.finish(vec![p], &mut m.funcs);
